@@ -413,7 +413,11 @@ def run(ctx):
     reqs = []
     for i, sess in enumerate(sessions):
         reqs.append(dict(i=i, init=["g1"], sessions=sess, procs=[1, 2, 4, 8, 16][i % 5], jitter=[0, 1, 3][(i // 5) % 3],
-                         seed=ctx.rng.randrange(1 << 30), fresh=40))
+                         seed=ctx.rng.randrange(1 << 30), fresh=40,
+                         # every third history runs next to two environment clients that create and delete graphs of
+                         # their own (isolated from everything the sessions name): the server's graph bookkeeping
+                         # then runs concurrently with the owner's AddGraph/DeleteGraph
+                         churn=(i % 3 == 2)))
     want_race = min(want_race, len(reqs))
     race_ids = {int(k * len(reqs) / want_race) for k in range(want_race)} if want_race else set()
     plain = [r for r in reqs if r["i"] not in race_ids]
@@ -504,6 +508,19 @@ def run(ctx):
                 ctx.log("CORRUPTED history %s: %s acknowledged although g2 never exists" % (l["i"], describe(hit[0]["call"])))
                 break
 
+    # ---- the owner's own view of the graph listing right after its acknowledged AddGraph / DeleteGraph (the owner is
+    # the only client of the history that creates or deletes that graph, so every linearisation agrees on the answer)
+    for l in lines:
+        r, o, _ = byid[l["i"]]
+        for calls, recs in zip(r["sessions"], o.get("recs") or []):
+            for call, x in zip(calls, recs):
+                res = x.get("res") or {}
+                la = res.get("listed_after")
+                if res.get("res") == "ok" and la in ("yes", "no") and la != ("yes" if call["op"] == "AddGraph" else "no"):
+                    ctx.diverge("conc graph listing stale after acknowledged %s" % call["op"],
+                                "right after its own %s was acknowledged the client's ListGraphs %s the graph (other clients were creating and deleting graphs of their own)"
+                                % (call["op"], "does not show" if la == "no" else "still shows"),
+                                dict(sessions=r["sessions"], procs=r["procs"], jitter=r["jitter"], churn=r.get("churn"), call=call, result=res))
     # ---- validation: real-time order first; what it rejects is tried again with the order the property asks for
     accepted, nonlin, rejected_rt = validate_all(ctx, lines, canaries)
     still = []
